@@ -49,7 +49,7 @@ class FakeSocket:
         self.peer = None
         self.written = bytearray()
         self.cuts = None          # None: hand over everything asked for; int k: at most k bytes per read
-        self.write_cap = None
+        self.write_cap = getattr(world, "write_cap", None)   # at most this many bytes are accepted per send
         self.last_exc = None
         self.silence_forever = True
         self.deliveries = []      # (virtual time, bytes|'eof') scheduled by the peer
@@ -158,6 +158,11 @@ class FakeSocket:
             self._raise(OSError(errno.EBADF, "Bad file descriptor"))
         if self.shut:
             self._raise(BrokenPipeError(errno.EPIPE, "Broken pipe"))
+        self._due()
+        if getattr(self.w, "epipe_after_eof", False) and self.eof:
+            # the peer has closed its end: this transport refuses further writes (AF_UNIX, or TCP after the RST)
+            self.w.ev("tsendfail", sock=self.id, n=len(data))
+            self._raise(BrokenPipeError(errno.EPIPE, "Broken pipe"))
         data = bytes(data)
         if self.write_cap:
             data = data[:self.write_cap]
@@ -190,6 +195,7 @@ class HangForever(BaseException):
 class World:
     def __init__(self, resolver=None, outcomes=None, peer_factory=None, fake_tls=False):
         self.fake_tls = fake_tls
+        self.write_cap = None
         self.clock = VClock()
         self.log = []
         self.sockets = []
